@@ -23,7 +23,7 @@ import propkit
 import vlib
 
 MANIFEST = {
-  "text": "proof: (1) get_data_into's world filter returns exactly the contacts tagged with the world, order preserved; (2) its efc re-indexing is a permutation of [0,nefc) in MuJoCo's order with the emitted contact.efc_address = block starts PROVIDED every listed contact owns all its rows, and is refuted (F10) when a row-less contact precedes an active one; the repaired re-indexing is proved without that proviso; (3) put_data;get_data_into is the identity on contacts, contact.efc_address and efc rows for the repaired model (partial for the current code), and on the regenerated list of plainly copied fields (abstract values); (4) every value of each mujoco enum mirrored by types.py is defined by MJWarp, rejected by a put_model table row or explicitly exempt. Tested only: float32 conversion of values, put_model field equality, efc_J, qLD/M, the non-table raise sites",
+  "text": "proof: (1) get_data_into's world filter returns exactly the contacts tagged with the world, order preserved; (2) its efc re-indexing (current code, repaired by commit 0698005; C31_current_variant_fixed) is a permutation of [0,nefc) in MuJoCo's order, row-less contacts get address -1 and the others their block start, whenever the non-negative addresses are exactly [efl,nefc); the explicit OLD definition is kept as documentation: it had the property only when every contact owned all its rows and is refuted (F10) otherwise; (3) put_data;get_data_into is the identity on contacts, contact.efc_address and efc rows for MuJoCo-layout data, every world, and on the regenerated list of plainly copied fields (abstract values); every device field get_data_into reads is filled by put_data (C31_get_reads_filled); (4) every value of each mujoco enum mirrored by types.py is defined by MJWarp, rejected by a put_model table row or explicitly exempt. Tested only: float32 conversion of values, put_model field equality, efc_J, qLD/M, the non-table raise sites",
   "note": "trusted: Coq kernel; extractor bin/extract_io.py (statement-shape matching, fail closed); the hand transcription Model/IoCopy.v (checked each run against the real functions on generated buffers); numpy/mujoco bindings; the exemption list EXEMPT of extract_io.py (printed into Gen/Skel_io.v)",
   "technique": "Rocq proof over a transcribed executable model + regenerated skeleton (S), correspondence by vm_compute against the real functions (C), differential round-trip oracle against MuJoCo",
   "engine": "coq",
@@ -543,6 +543,68 @@ def oracle_make_data(res, rng, n):
   return fails
 
 
+# the four minimal inputs of the (fixed) findings, kept as regression cases under their original keys
+W_F10 = """<mujoco><worldbody><geom name="floor" type="plane" size="5 5 .1" margin="0.1" gap="0.1"/>
+<body pos="0 0 0.25"><freejoint/><geom size=".1"/></body>
+<body pos="1 0 0.09"><freejoint/><geom size=".1"/></body></worldbody></mujoco>"""
+W_ONE = """<mujoco><worldbody><geom name="floor" type="plane" size="5 5 .1"/>
+<body pos="0 0 0.09"><freejoint/><geom size=".1"/></body></worldbody></mujoco>"""
+
+
+def oracle_witnesses(res):
+  mujoco, mjw = _mj()
+  found = {}
+
+  def close(a, b):
+    return cmp_field(a, b, rtol=1e-5)[0]
+
+  # F10: in-gap contact listed before a penetrating one; put_data -> get_data_into and forward -> get_data_into, both worlds
+  m = mujoco.MjModel.from_xml_string(W_F10)
+  d = mujoco.MjData(m)
+  mujoco.mj_forward(m, d)
+  mm = mjw.put_model(m)
+  for via in ("put_data", "forward"):
+    dd = mjw.put_data(m, d, nworld=2)
+    if via == "forward":
+      dd = mjw.make_data(m, nworld=2)
+      mjw.forward(mm, dd)
+    for w in range(2):
+      r = mujoco.MjData(m)
+      mjw.get_data_into(r, m, dd, w)
+      res.count()
+      res.nontrivial(("witness", "F10", via, w))
+      if r.nefc != d.nefc or r.contact.efc_address[: r.ncon].tolist() != d.contact.efc_address[: d.ncon].tolist() or not close(r.efc_pos, d.efc_pos):
+        found.setdefault(K_F10, []).append({"xml": W_F10, "nworld": 2, "label": f"minimal F10 via {via}", "detail": f"world {w}: efc_pos {np.round(r.efc_pos, 4).tolist()} (MuJoCo {np.round(d.efc_pos, 4).tolist()}), contact.efc_address {r.contact.efc_address[: r.ncon].tolist()} (MuJoCo {d.contact.efc_address[: d.ncon].tolist()})",
+                                          "efc_address": d.contact.efc_address[: d.ncon].tolist()})  # fmt: skip
+  # one penetrating sphere
+  m = mujoco.MjModel.from_xml_string(W_ONE)
+  d = mujoco.MjData(m)
+  mujoco.mj_forward(m, d)
+  mm = mjw.put_model(m)
+  dd = mjw.make_data(m, nworld=2)
+  mjw.forward(mm, dd)
+  for w in range(2):
+    r = mujoco.MjData(m)
+    mjw.get_data_into(r, m, dd, w)
+    res.count()
+    res.nontrivial(("witness", "efc_id", w))
+    if r.efc_id.tolist() != d.efc_id.tolist():
+      found.setdefault(K_EFCID, []).append({"xml": W_ONE, "nworld": 2, "world": w, "mujoco_efc_id": d.efc_id.tolist(), "label": "minimal efc_id", "detail": f"world {w}: efc_id {r.efc_id.tolist()} (MuJoCo {d.efc_id.tolist()})"})
+  dd = mjw.put_data(m, d, nworld=2)
+  for w in range(2):
+    r = mujoco.MjData(m)
+    mjw.get_data_into(r, m, dd, w)
+    res.count()
+    res.nontrivial(("witness", "state-island", w))
+    if r.efc_state.tolist() != d.efc_state.tolist() or r.efc_island.tolist() != d.efc_island.tolist():
+      found.setdefault(K_STATE, []).append({"xml": W_ONE, "nworld": 2, "label": "minimal efc_state", "detail": f"world {w}: efc_state {r.efc_state.tolist()} (MuJoCo {d.efc_state.tolist()})"})
+    k = d.nisland
+    isl = ("island_nv", "island_dofadr", "island_idofadr", "island_nefc", "island_ne", "island_nf", "island_iefcadr")
+    if r.nisland != k or any(getattr(r, f)[:k].tolist() != getattr(d, f)[:k].tolist() for f in isl) or r.map_dof2idof[: m.nv].tolist() != d.map_dof2idof[: m.nv].tolist() or r.map_efc2iefc[: d.nefc].tolist() != d.map_efc2iefc[: d.nefc].tolist():
+      found.setdefault(K_ISLAND, []).append({"xml": W_ONE, "nworld": 2, "label": "minimal island arrays", "detail": f"world {w}: island / map arrays differ from MuJoCo's (nisland {r.nisland} vs {k})"})
+  return found
+
+
 # ---------------------------------------------------------------------------------------------------------- oracle: put_model
 def oracle_put_model(res, rng, n):
   """Every types.Model field that mirrors an MjModel field equals it (shape / leading batch dimension aside)."""
@@ -717,7 +779,7 @@ def run(res):
   corr_bad = []
   if skel is not None:
     variant = skel["efc_idx_variant"]
-    res.obligation("get_data_into's efc re-indexing block matches a transcribed variant (old / fixed)", variant in ("old", "fixed"), f"variant={variant} missing={skel['efc_idx_missing'][:3]}")
+    res.obligation("get_data_into's efc re-indexing block is the repaired one (statement-level match; C31_current_variant_fixed)", variant == "fixed", f"variant={variant} missing={skel['efc_idx_missing'][:3]}")
     res.extra["efc_idx_variant"] = variant
     import tvalid
 
@@ -744,7 +806,9 @@ def run(res):
     # ---- oracle: the property on the real code
     f1, ncases = oracle_roundtrip(res, skel, rng, 10 if quick else 120, states)
     f2 = oracle_selfconsistent(res, rng, 4 if quick else 12)
-    for k, v in list(f1.items()) + list(f2.items()):
+    f3 = oracle_witnesses(res)
+    res.obligation("regression: the four minimal inputs of the fixed C31 findings agree with MuJoCo", not f3, ", ".join(sorted(f3)) or "rowless-contact, efc-id, efc-state/island, island arrays: all agree")
+    for k, v in list(f3.items()) + list(f1.items()) + list(f2.items()):
       found.setdefault(k, []).extend(v)
     res.extra["roundtrip"] = {"cases": ncases, "keys": {k: len(v) for k, v in found.items()}}
     vlib.log(f"[C31] round trips {ncases}, {time.time() - t0:.0f}s")
@@ -766,10 +830,10 @@ def run(res):
     res.sample({"kind": "oracle", "round_trips": ncases, "put_model_fields": nfields, "feature_cases": nft, "finding_keys": sorted(found)})
   # ---- report
   what = {
-    K_F10: "get_data_into concatenates contact.efc_address[c,:ndim] of contacts without rows (-1): numpy wraps the index, the returned efc rows are copies of the last buffer row and contact.efc_address are running sums instead of -1/block starts",
-    K_EFCID: "get_data_into returns efc_id of contact rows as the index into the flat multi-world contact buffer, not into the returned contact list (world >= 1 after forward)",
-    K_STATE: "put_data does not copy efc_state / efc_island (left zero) although get_data_into returns them",
-    K_ISLAND: "put_data copies nisland/tree_island/dof_island but leaves island_* and map_* arrays wp.empty (uninitialised); get_data_into returns them when nisland > 0",
+    K_F10: "REGRESSION of fixed finding (commit 0698005): get_data_into concatenates contact.efc_address[c,:ndim] of contacts without rows (-1): numpy wraps the index, the returned efc rows are copies of the last buffer row and contact.efc_address are running sums instead of -1/block starts",
+    K_EFCID: "REGRESSION of fixed finding (commit c802862): get_data_into returns efc_id of contact rows as the index into the flat multi-world contact buffer, not into the returned contact list (world >= 1 after forward)",
+    K_STATE: "REGRESSION of fixed finding (commit b3ed252): put_data does not copy efc_state / efc_island (left zero) although get_data_into returns them",
+    K_ISLAND: "REGRESSION of fixed finding (commit b3ed252): put_data copies nisland/tree_island/dof_island but leaves island_* and map_* arrays wp.empty (uninitialised); get_data_into returns them when nisland > 0",
   }
   for k, v in found.items():
     res.violation(k, what.get(k, "put_data/get_data_into/put_model disagrees with MuJoCo") + f" ({len(v)} failing inputs; first: {str(v[0].get('detail', v[0].get('got', v[0].get('fields', ''))))[:160]})", v[0])
@@ -784,6 +848,7 @@ def run(res):
     "the abstract round trip covers the plainly copied fields (result.f[:] = d.f[world_id]); qLD/M (re-factorised), efc_J (sparse<->dense) and actuator_moment are tested only",
     "feature rejection: the theorem covers the three table-driven loops; the 14 other raise sites are extracted (Skel_io.reject_sites) and 6 of them exercised by directed models",
     "exemptions (Skel_io.exempt): count sentinels and enums put_model has no row for (mjtObj tags, mjSTAGE_NONE, mjDATATYPE_AXIS/QUATERNION, mjSTATE_PLUGIN)",
+    "the renumbering of contact rows' efc_id (commit c802862) is tested (regression witness, self-consistency oracle), not modelled in Coq; the correspondence tags rows through efc_pos / efc_state",
     "contact.flex/elem/vert of the returned MjData are not written when nflex == 0 (MuJoCo holds -1 there): not a represented field, not compared",
   ]
 
